@@ -168,6 +168,10 @@ DesignedBoundOK(sa, sb, b, which, kind, li, prec, pi) ==
        /\ DyLe(DyMul(DyMul(DySq(cm[1]), S), N2), DyMul(DySq(uppr), DD))
        /\ (DyLe(aE, tol) \/ DySign(E) = want)
 
+\* conditioning domain of the unpaired judge (its tolerance is a fixed relative band): the computed
+\* variance of each sample keeps 10 bits, kappa * 8u <= 2^-10 with kappa = n S2 / V
+WellCond(st, prec) == DySign(st.v) = 0 \/ DyLe(DyShift(DyMulInt(st.s2, st.n), 13 - prec), st.v)
+
 UnpairedNuRange(sa, sb) ==
     LET P == UNuP(sa, sb)  Q == UNuQ(sa, sb)  f == Ratiofloor(P, Q)
     IN [floor |-> f - 2, exact |-> RatioIsInt(P, Q, f)]
